@@ -64,6 +64,8 @@ def run_one(pid, m, repo):
                            capture_output=True, text=True, timeout=600)
         out = p.stdout + p.stderr
         expect = m.get("expect", "violation")
+        if expect == "any":
+            return m, ("ok" if p.returncode in (1, 2) else "fail"), f"expected exit 1 or 2, got {p.returncode}"
         if expect == "violation":
             if p.returncode != 1 or "VIOLATION property=" not in out:
                 return m, "fail", f"expected a violation, got exit {p.returncode}: " + out[-400:].replace("\n", " | ")
